@@ -1205,13 +1205,17 @@ class C08Run(StateRun):
         self.listener_ops = ch.draw(self.P.get('max_listener_ops', 8) + 1, 'nlops')
         self.wait_ops = ch.draw(self.P.get('max_waits', 12) + 1, 'nwaits')
         self.unlisten_ops = ch.draw(3, 'nunl')
+        # a stream attacher next to the listeners: who decides where a stream goes changes nothing about what is notified
+        self.want_attacher = ch.chance(1, 5, 'c08attacher')
+        self.attacher_set = False
         self.relisten_ops = ch.draw(3, 'nrel')
         self.note_widx = []
         self.step_self_removed = set()
         self.sim.add_source(self.c08_actions)
 
     def finished(self):
-        return StateRun.finished(self) and self.listener_ops <= 0 and self.wait_ops <= 0
+        return StateRun.finished(self) and self.listener_ops <= 0 and self.wait_ops <= 0 and \
+            (not self.want_attacher or self.attacher_set or not self.boot)
 
     def c08_actions(self):
         acts = []
@@ -1219,6 +1223,8 @@ class C08Run(StateRun):
             acts.append((2, 'listener-op', self.op_listener))
         if self.wait_ops > 0 and (self.model.all_circs or self.model.all_streams):
             acts.append((3, 'wait-op', self.op_wait))
+        if self.want_attacher and self.boot and not self.attacher_set:
+            acts.append((3, 'install-attacher', self.op_install_attacher))
         if self.unlisten_ops > 0 and self.unlisten_cands():
             acts.append((1, 'unlisten-op', self.op_unlisten))
         if self.relisten_ops > 0 and self.relisten_cands():
@@ -1279,6 +1285,28 @@ class C08Run(StateRun):
             else:
                 self.state.add_stream_listener(dbl)
         self.regs.append(r)
+
+    def op_install_attacher(self):
+        from zope.interface import implementer
+        from txtorcon.interface import IStreamAttacher
+        from twisted.internet import defer as _defer
+        run = self
+
+        @implementer(IStreamAttacher)
+        class FirstBuilt(object):
+            def attach_stream(self, stream, circuits):
+                built = sorted([c for c in circuits.values() if c.state == 'BUILT'], key=lambda c: c.id)
+                answer = built[0] if built else None
+                return _defer.succeed(answer) if run.ch.chance(1, 2, 'attdeferred') else answer
+
+            def attach_stream_failure(self, stream, fail):
+                return None
+        self.attacher_set = True
+        self.sim.probe('stream-attacher-installed-next-to-listeners')
+        self.sim.log('install-attacher')
+        d = self.state.set_attacher(FirstBuilt(), self.sim.reactor)
+        if d is not None:
+            d.addErrback(lambda f: None)
 
     def relisten_cands(self):
         cands = []
